@@ -1,22 +1,39 @@
 #!/bin/bash
-# tools/seed_matrix.sh [seed-id...] : for every seeded change, apply it on a scratch worktree of /repo and run
-# ALL registered quick checks against it; writes one JSON line per seed to seeded/matrix.jsonl (in this /verif).
+# tools/seed_matrix.sh [seed-id...] : for every seeded change, apply it on a scratch worktree of
+# /repo, build the runner ONCE against that worktree and run
+#   - the quick check of the change's own property at full size, and
+#   - every other quick check at VERIF_SCALE=${CROSS_SCALE:-0.15} (cross-detection survey; a check
+#     that needs more than ${CROSS_TIMEOUT:-150} s there is recorded as "t" = no verdict).
+# One JSON line per seed is appended to seeded/matrix.jsonl:  {"seed":..,"results":{"C01":rc,..}}
+# rc: 1 = violation reported, 0 = silent, 3 = no verdict (too few cases at that scale), "t" = timeout.
+# Never touches /repo's working tree. PAR seeds run in parallel (default 3).
 cd "$(dirname "$(readlink -f "$0")")/.."
 V=$PWD
-export GOFLAGS=-mod=mod GOPROXY=off GOSUMDB=off GOTOOLCHAIN=local
+export GOFLAGS=-mod=mod GOPROXY=off GOSUMDB=off GOTOOLCHAIN=local TZ=UTC
+unset PPROF_TOOLS PPROF_BINARY_PATH PPROF_TMPDIR BROWSER DISPLAY
 ids=$(python3 -c "import json;print(' '.join(c['property_id'] for c in json.load(open('MANIFEST.json'))['checks']))")
 seeds="$@"; [ -z "$seeds" ] && seeds=$(cd seeded && ls -d */ | tr -d / | while read d; do [ -f "$d/patch.diff" ] && echo "$d"; done)
 one() {
   s=$1
+  own=$(python3 -c "import json;print(json.load(open('$V/seeded/$s/meta.json'))['property'])")
   w=$(mktemp -d /tmp/sm.XXXXXX)
   git -C /repo worktree add -q --detach "$w/pprof" HEAD || return
-  ( cd "$w/pprof" && git apply "$V/seeded/$s/patch.diff" ) || { echo "{\"seed\":\"$s\",\"error\":\"patch does not apply\"}"; git -C /repo worktree remove --force "$w/pprof"; rm -rf $w; return; }
+  ( cd "$w/pprof" && git apply "$V/seeded/$s/patch.diff" ) 2>/dev/null || { echo "{\"seed\":\"$s\",\"error\":\"patch does not apply\"}"; git -C /repo worktree remove --force "$w/pprof"; rm -rf $w; return; }
+  sed "s#=> /repo#=> $w/pprof#" "$V/go.mod" > "$w/go.mod"; cp "$V/go.sum" "$w/go.sum"
+  mkdir -p "$w/bin" "$w/out"
+  ( cd "$V" && go build -modfile="$w/go.mod" -tags verif -o "$w/bin/vcheck" ./cmd/vcheck && go build -modfile="$w/go.mod" -tags verif -o "$w/bin/pprof" github.com/google/pprof && go build -modfile="$w/go.mod" -tags verif -race -o "$w/bin/vcheck-race" ./cmd/vcheck ) >"$w/build.log" 2>&1 || { echo "{\"seed\":\"$s\",\"error\":\"does not build\"}"; git -C /repo worktree remove --force "$w/pprof"; rm -rf $w; return; }
   res=""
   for id in $ids; do
-    VERIF_REPO="$w/pprof" VERIF_OUT_DIR="$w/out" VERIF_BIN="$w/bin" "$V/check" $id quick >"$w/log" 2>&1; rc=$?
+    if [ "$id" = "$own" ]; then
+      ( cd "$V" && VERIF_REPO="$w/pprof" VERIF_DIR="$V" VERIF_OUT_DIR="$w/out" VERIF_BIN="$w/bin" timeout 3000 "$w/bin/vcheck" run $id quick ) >"$w/log" 2>&1; rc=$?
+    else
+      ( cd "$V" && VERIF_REPO="$w/pprof" VERIF_DIR="$V" VERIF_OUT_DIR="$w/out" VERIF_BIN="$w/bin" VERIF_SCALE=${CROSS_SCALE:-0.15} timeout ${CROSS_TIMEOUT:-150} "$w/bin/vcheck" run $id quick ) >"$w/log" 2>&1; rc=$?
+      [ $rc = 124 ] && rc='"t"'
+    fi
     res="$res\"$id\":$rc,"
   done
-  echo "{\"seed\":\"$s\",\"results\":{${res%,}}}"
+  echo "{\"seed\":\"$s\",\"own\":\"$own\",\"results\":{${res%,}}}"
+  pkill -f "$w/bin/vcheck" 2>/dev/null
   git -C /repo worktree remove --force "$w/pprof" >/dev/null 2>&1; rm -rf "$w"
 }
 export -f one; export V ids
